@@ -89,22 +89,22 @@ func (pq *packetQueue) reset() {
 	pq.mu.Lock()
 	defer pq.mu.Unlock()
 	pq.packets = nil
+	vhook.Event("pq.reset", "o", pq)
 	select {
 	case pq._reset <- struct{}{}:
 	default:
 	}
-	vhook.Event("pq.reset", "o", pq)
 }
 
 func (pq *packetQueue) close() {
 	pq.mu.Lock()
 	defer pq.mu.Unlock()
 	pq.packets = nil
+	vhook.Event("pq.close", "o", pq)
 	select {
 	case pq._close <- struct{}{}:
 	default:
 	}
-	vhook.Event("pq.close", "o", pq)
 }
 
 func (pq *packetQueue) waitForDrain(timeout time.Duration) (timedout bool) {
